@@ -7,6 +7,9 @@ calls (decided by the content, so that a replay takes the same decision), hands 
 octets.  A decoder whose behaviour depends on the form of its input (an ``isinstance(x, bytes)`` fast path, a cache keyed on
 the object, an in-place edit of a bytearray) then disagrees with the reference model in the ordinary comparisons.
 
+When the sanitizer itself created the bytearray it passes on, it overwrites that buffer as soon as the decoder has returned
+(receive-buffer re-use), so a decoded object that aliases its input instead of owning its octets is exposed.
+
 It also checks that a decoder leaves a ``bytearray`` it was given unchanged; a write into the caller's receive buffer is
 recorded (``written_input_buffers``) and reported by the checks that arm the sanitizer as informational evidence.
 """
@@ -15,7 +18,7 @@ from __future__ import annotations
 import functools
 import sys
 
-COUNT = {"calls": 0, "swapped_to_bytearray": 0, "swapped_to_bytes": 0, "written_input_buffers": 0, "entry_points": 0}
+COUNT = {"calls": 0, "swapped_to_bytearray": 0, "swapped_to_bytes": 0, "written_input_buffers": 0, "reused_input_buffers": 0, "entry_points": 0}
 WRITTEN = []
 NAMES = ("unpack", "unpack_from_raw", "read_from_raw", "from_raw", "from_bytes", "from_raw_to_holder")
 
@@ -26,9 +29,11 @@ def _wrap(fn, skip):
         if len(args) > skip and type(args[skip]) in (bytes, bytearray):
             b = args[skip]
             COUNT["calls"] += 1
+            own = False
             if (len(b) + (b[0] if b else 0) + (b[-1] if b else 0)) & 1:
                 if type(b) is bytes:
                     nb = bytearray(b)
+                    own = True
                     COUNT["swapped_to_bytearray"] += 1
                 else:
                     nb = bytes(b)
@@ -44,6 +49,12 @@ def _wrap(fn, skip):
                         COUNT["written_input_buffers"] += 1
                         if len(WRITTEN) < 5:
                             WRITTEN.append(getattr(fn, "__qualname__", repr(fn)))
+                    if own:
+                        # the receive buffer is re-used by its owner as soon as the decoder has returned: a decoded object
+                        # that still refers to it (instead of owning its octets) changes under the ordinary comparisons
+                        for i in range(len(b)):
+                            b[i] ^= 0xFF
+                        COUNT["reused_input_buffers"] += 1
         return fn(*args, **kw)
     wrapper.__spv_argform__ = True
     return wrapper
